@@ -32,65 +32,123 @@ def allowed_txt(allowed):
     return "/".join(str(n) for n in allowed)
 
 
-def gen_parse(o):
+MAXU = "usize::MAX"
+
+
+def allowed_arr(allowed):
+    return "[" + ", ".join([str(n) for n in allowed] + [MAXU] * (4 - len(allowed))) + "]"
+
+
+def helpers(N):
+    """Loop-free per-length helpers (see the NOTE on `spec` in c12_support.rs: harness code must not contain loops)."""
+    ascii_ = " & ".join(f"(b[{i}] < 0x80)" for i in range(N))
+    hex_ = "\n        & ".join(f"(({i} < from) | ({i} >= len) | is_hex(b[{i}]))" for i in range(N))
+    return f"""
+// every byte of the buffer is ASCII
+fn ascii_{N}(b: &[u8; {N}]) -> bool {{
+    {ascii_}
+}}
+
+// every byte at the positions from..len is an ASCII hex digit
+fn hex_{N}(b: &[u8; {N}], from: usize, len: usize) -> bool {{
+    {hex_}
+}}
+"""
+
+
+def ncomp(allowed):
+    return 3 if allowed[0] == 3 else 4
+
+
+def unwind_for(allowed, lo, hi):
+    """from_str_radix is the only loop reached (besides the 1-byte memcmp of strip_prefix). Its trip count is the number of
+    digits of one component in the forms whose length lies in the harness's length range (8 / 4 / 2); bound = trips + 1.
+    Arms for other lengths are unreachable under the length assumption, so their unwinding assertions hold trivially."""
+    per = max([n // ncomp(allowed) for n in allowed if lo - 1 <= n <= hi] or [1])
+    return max(per, 1) + 1
+
+
+def ranges(allowed):
+    """Length ranges, one per group of forms with the same component width: 0..=9 (the property's stated bound; 1- and
+    2-digit components), then up to each longer form + 1 (for '#')."""
+    out, lo = [(0, 9)], 10
+    for n in allowed:
+        if n + 1 > 9:
+            out.append((lo, n + 1))
+            lo = n + 2
+    return out
+
+
+def gen_parse(o, probe=False):
+    sizes_needed = {9, 36}
+    for key, ty, allowed in PARSE:
+        sizes_needed |= {hi for _, hi in ranges(allowed)}
+    for N in sorted(sizes_needed):
+        o.parts.append(helpers(N))
     for key, ty, allowed in PARSE:
         isf = "f32" in ty or "f64" in ty
-        # ---- family 1: every ASCII string up to N bytes -------------------------------------------------------------
-        # N = 9 is the property's stated string length; the types that accept longer forms get a second harness
-        # with N = longest accepted form + 1 ('#') so that every match arm of the impl is decided.
-        sizes = [9]
-        if max(allowed) + 1 > 9:
-            sizes.append(max(allowed) + 1)
-        for N in sizes:
+        wide = "u8" not in ty
+        tys = ty.replace("Std", "S")
+        syntax = f"an optional '#' followed by exactly {allowed_txt(allowed)} hex digits (0-9a-fA-F; no sign, no blank)"
+        val_txt = "and the Ok value is the colour the digits denote" + (" (shorter forms widened with into_format)" if wide else "")
+        # ---- family 1: every ASCII string, by length range ----------------------------------------------------------
+        for lo, hi in ranges(allowed):
+            N = hi
             o.harness(
-                f"c12_parse_ascii_{key}_le{N}",
-                f"strict and total parse of {ty.replace('Std', 'S')}: for EVERY ASCII string of at most {N} bytes, `parse` does not panic, returns Ok "
-                f"only if the string is an optional '#' followed by exactly {allowed_txt(allowed)} hex digits (0-9a-fA-F; no sign, no blank), "
-                f"returns Err only if it is not, and the Ok value is the colour the digits denote"
-                + (" (shorter forms widened with into_format)" if "u8" not in ty else "")
-                + ". The &str is built with from_utf8_unchecked, sound because every byte is < 0x80.",
+                f"c12_parse_ascii_{key}_len{lo}_{hi}",
+                f"strict and total parse of {tys}: for EVERY ASCII string of {lo}..={hi} bytes, `parse` does not panic, returns Ok "
+                f"only if the string is {syntax}, returns Err only if it is not, {val_txt}. "
+                f"The &str is built with from_utf8_unchecked, sound because every byte is < 0x80.",
                 f"""
                 let buf: [u8; {N}] = kani::any();
                 let len: usize = kani::any();
-                kani::assume(len <= {N});
-                let mut i = 0;
-                while i < {N} {{
-                    kani::assume(buf[i] < 0x80);
-                    i += 1;
-                }}
+                kani::assume(len >= {lo} && len <= {hi});
+                kani::assume(ascii_{N}(&buf));
+                let want = spec(buf[0], len, hex_{N}(&buf, 0, len), hex_{N}(&buf, 1, len), {allowed_arr(allowed)});
                 kani::cover!(true);
-                check_parse::<{ty}, {N}>(&buf, len, &{allowed}, true);
+                kani::cover!(want.is_some());
+                check_parse::<{ty}, {N}>(&buf, len, want, true);
                 """,
                 parse_fns(ty, allowed, N),
-                f"all 128^n ASCII byte strings of every length n <= {N} (symbolic length, symbolic bytes)",
-                unwind=N + 2)
+                f"all 128^n ASCII byte strings of every length n in {lo}..={hi} (symbolic length, symbolic bytes)",
+                unwind=unwind_for(allowed, lo, hi), thorough=(isf and "f64" in ty and lo > 0))
         # ---- family 2: every string of at most K Unicode scalar values ----------------------------------------------
         K = 9
-        NB = 4 * K
-        o.harness(
-            f"c12_parse_unicode_{key}_le{K}",
-            f"strict and total parse of {ty.replace('Std', 'S')} on multi-byte input: for EVERY string of at most {K} Unicode scalar values (each a symbolic "
-            f"`char`, encoded with char::encode_utf8, so 1- to 4-byte sequences at every position; valid UTF-8 by construction), `parse` does not "
-            f"panic, returns Ok only for an optional '#' followed by exactly {allowed_txt(allowed)} hex digits with the denoted value, and Err only otherwise",
-            f"""
-            let cs: [char; {K}] = kani::any();
-            let k: usize = kani::any();
-            kani::assume(k <= {K});
-            kani::cover!(true);
-            let mut buf = [0u8; {NB}];
-            let mut len = 0usize;
-            let mut i = 0;
-            while i < {K} {{
-                if i < k {{
-                    push_char(&mut buf, &mut len, cs[i]);
-                }}
-                i += 1;
-            }}
-            check_parse::<{ty}, {NB}>(&buf, len, &{allowed}, true);
-            """,
-            parse_fns(ty, allowed, NB),
-            f"all strings of k <= {K} Unicode scalar values (all 0x10F800 chars per position), up to {NB} bytes",
-            unwind=NB + 2)
+        decl = "\n".join(f"let c{i}: char = kani::any();" for i in range(K))
+
+        def unicode(name, NB, cap, thorough):
+            push = "\n".join(f"if {i} < k {{ push_char(&mut buf, &mut len, c{i}); }}" for i in range(K))
+            capl = ""
+            if cap:
+                tot = " + ".join(f"(if {i} < k {{ c{i}.len_utf8() }} else {{ 0 }})" for i in range(K))
+                capl = f"kani::assume({tot} <= {cap});"
+            o.harness(
+                name,
+                f"strict and total parse of {tys} on multi-byte input: for EVERY string of at most {K} Unicode scalar values "
+                + (f"and at most {cap} bytes " if cap else "")
+                + f"(each a symbolic `char`, encoded with char::encode_utf8, so 1- to 4-byte sequences at every position; valid UTF-8 by "
+                f"construction), `parse` does not panic, returns Ok only for {syntax}, Err only otherwise, {val_txt}",
+                f"""
+                {decl}
+                let k: usize = kani::any();
+                kani::assume(k <= {K});
+                {capl}
+                kani::cover!(true);
+                let mut buf = [0u8; {NB}];
+                let mut len = 0usize;
+                {push}
+                kani::cover!(len >= 4 && buf[1] >= 0x80);
+                let want = spec(buf[0], len, hex_{NB}(&buf, 0, len), hex_{NB}(&buf, 1, len), {allowed_arr(allowed)});
+                check_parse::<{ty}, {NB}>(&buf, len, want, true);
+                """,
+                parse_fns(ty, allowed, cap or NB),
+                f"all strings of k <= {K} Unicode scalar values (every `char` at every position)"
+                + (f" whose UTF-8 encoding has at most {cap} bytes" if cap else f", up to {NB} bytes"),
+                unwind=unwind_for(allowed, 0, cap or NB), thorough=thorough)
+
+        if wide:
+            unicode(f"c12_parse_unicode_{key}_le{K}_b9", 9, 9, False)
+        unicode(f"c12_parse_unicode_{key}_le{K}", 4 * K, None, wide)
 
 
 def gen():
